@@ -179,6 +179,14 @@ static void run_typed(const Plan &p, const gen::Csr &A0, Result &res) {
     try { amg.reset(new RecAMG(A.tie(), prm)); } catch (const std::exception &e) { res.counts["construction_threw"]++; level_log().clear(); return; }
     std::vector<LevelLog> built = level_log(); level_log().clear();
     std::vector<size_t> relaxed = relax_log(); relax_log().clear();
+    // a second hierarchy that shares the caller's matrix object (the non-copying shared_ptr constructor): the caller later updates
+    // the values in place and calls rebuild() with the same pointer - the history of a time-stepping code
+    std::shared_ptr<BM> SP; std::unique_ptr<RecAMG> amg_sp;
+    try { SP = std::make_shared<BM>(A.tie()); amgcl::backend::sort_rows(*SP); amg_sp.reset(new RecAMG(SP, prm)); } catch (const std::exception &) { amg_sp.reset(); }
+    // the two constructions are independent runs of the coarsening: smoothed_aggr_emin accumulates in a critical section whose order the
+    // schedule decides, so its operators may differ in the last bits - the bitwise comparison below needs bit-identical P and R
+    std::vector<uint64_t> sp_digest; for (size_t l = 0; l < level_log().size(); ++l) if (level_log()[l].Ac) { sp_digest.push_back(crs_digest(*std::static_pointer_cast<BM>(level_log()[l].P))); sp_digest.push_back(crs_digest(*std::static_pointer_cast<BM>(level_log()[l].R))); }
+    level_log().clear(); relax_log().clear();
     std::ostringstream os; os << *amg; size_t nlevels = 0; { std::string t = os.str(); size_t pos = t.find("Number of levels:"); if (pos != std::string::npos) nlevels = (size_t)atoi(t.c_str() + pos + 17); }
     res.counts["levels_total"] += nlevels;
 
@@ -264,6 +272,20 @@ static void run_typed(const Plan &p, const gen::Csr &A0, Result &res) {
         relax_log().clear();
         std::vector<std::vector<double> > act, want;
         probe(*amg, n, (uint64_t)p.get("vseed"), act);
+        if (amg_sp && sp_digest != pr_digest) res.counts["in_place_twin_has_other_transfer_operators"]++;
+        if (amg_sp && sp_digest == pr_digest) {   // same history through the shared matrix object: values updated in place, rebuild(same pointer)
+            BM Ti(Ai.tie()); amgcl::backend::sort_rows(Ti);
+            bool same_pattern = Ti.nnz == SP->nnz; for (size_t j = 0; same_pattern && j < Ti.nnz; ++j) same_pattern = Ti.col[j] == SP->col[j];
+            if (same_pattern) {
+                for (size_t j = 0; j < Ti.nnz; ++j) SP->val[j] = Ti.val[j];
+                std::string e2; try { amg_sp->rebuild(SP); } catch (const std::exception &e) { e2 = e.what(); }
+                level_log().clear(); relax_log().clear();
+                res.counts["rebuilds_in_place_same_object"]++;
+                if (!e2.empty()) res.fail(sig("rebuilt-equals-fresh", "rebuild-in-place", fmt("rebuild %zu with the caller's own (updated in place) matrix object threw: %s", i, e2.c_str())));
+                else { std::vector<std::vector<double> > act2; probe(*amg_sp, n, (uint64_t)p.get("vseed"), act2);
+                    for (size_t k = 0; k < act.size(); ++k) if (!bits_equal(act[k], act2[k])) { long d = first_diff(act[k], act2[k]); res.fail(sig("rebuilt-equals-fresh", "rebuild-in-place", fmt("after rebuild %zu (variant %ld) with the caller's own matrix object updated in place: probe %zu differs at %ld: %.17g vs %.17g from rebuild(copy)", i, kind, k, d, d >= 0 ? act2[k][d] : 0.0, d >= 0 ? act[k][d] : 0.0))); break; } }
+            }
+        }
         try { RepAMG fresh(Ai.tie(), rprm); probe(fresh, n, (uint64_t)p.get("vseed"), want); } catch (const std::exception &e) { res.counts["fresh_threw"]++; replay_queue().clear(); continue; }
         replay_queue().clear(); relax_log().clear(); level_log().clear();
         for (size_t k = 0; k < act.size(); ++k) if (!bits_equal(act[k], want[k])) { long d = first_diff(act[k], want[k]); res.fail(sig("rebuilt-equals-fresh", "rebuild", fmt("after rebuild %zu (variant %ld): probe %zu differs at %ld: %.17g vs fresh %.17g", i, kind, k, d, d >= 0 ? act[k][d] : 0.0, d >= 0 ? want[k][d] : 0.0))); break; }
